@@ -141,6 +141,27 @@ def _e10(chk, repo, mname, fn, W):
     return n_attr, types
 
 
+def buffers_built_here(chk, imod, fn, rule, where):
+    """every name of ``fn`` that is written item by item (``buf[i] = x``) is bound, in ``fn``, to a container built by that
+    very call - two generators (two players) must never fill one shared buffer"""
+    # (written inside a loop: the per-item filling of a buffer, not the one-time entry of a look-up table)
+    written = {n_.value.id for lp_ in ast.walk(fn) if isinstance(lp_, (ast.For, ast.While)) for n_ in ast.walk(lp_)
+               if isinstance(n_, ast.Subscript) and isinstance(n_.ctx, ast.Store) and isinstance(n_.value, ast.Name)}
+    for bname in sorted(written):
+        binds = [n_ for n_ in ast.walk(fn) if isinstance(n_, ast.Assign) and any(
+            isinstance(t_, ast.Name) and t_.id == bname for t_ in n_.targets)]
+        fresh = bool(binds) and all(
+            (isinstance(b_.value, ast.Call) and canon_call(imod, b_.value) in ("array.array", "bytearray", "list"))
+            or isinstance(b_.value, (ast.List, ast.ListComp))
+            or (isinstance(b_.value, ast.BinOp) and isinstance(b_.value.op, ast.Mult) and isinstance(b_.value.left, ast.List))
+            for b_ in binds)
+        chk.decide(fresh, rule, where, "%s, written item by item, is built in this call: %s"
+                   % (bname, "; ".join(short(b_) for b_ in binds) or "bound outside the function"),
+                   why="a buffer that outlives the call (a cache, a module-level object, an argument) is shared by every "
+                       "generator using it: two interleaved consumers overwrite each other's half-filled chunk", node=fn)
+    return len(written)
+
+
 def run(chk, repo):
     imod, wmod = repo.mod(LI), repo.mod(LW)
     WI = lambda q: "%s:%s" % (imod.relpath, q)
@@ -350,6 +371,7 @@ def run(chk, repo):
         ok = len(tries_) == 1 and unparse(tbs[0].value) == "chunk.tobytes" and unparse(tbs[1].value) == "chunk.tostring"
     chk.decide(ok, "C18.array", WI("chunks[array]"), short(tb) if tb is not None else "tobytes missing",
                why="export must be the byte string of the array", node=ca)
+    buffers_built_here(chk, imod, ca, "C18.array", WI("chunks[array]"))
     lp = [s for s in ab if isinstance(s, ast.For)]
     ok = len(lp) == 1 and unparse(lp[0].iter) == "seq"
     if ok:
